@@ -17,7 +17,12 @@ Definition ev := (peer * pkt * (bool * bool * bool))%type.
 Inductive case :=
 | CPool (nb lb : Z) (ops : list pool_op)
 | CNode (nb lb self : Z) (cbs : list Z) (evs : list ev)
-| CRelay (isRelay : bool) (ttl dest : Z) (relayed : bool).
+| CRelay (isRelay : bool) (ttl dest : Z) (relayed : bool)
+(* the same new hash offered by n concurrent callers, released together, many rounds:
+   the smallest and largest number of callers told "new" (resp. of deliveries) in a round.
+   Put is atomic in the model: the callers are serialised in some order, all orders are
+   the same sequence of n Puts of one hash *)
+| CConcurrent (nb lb n min_new max_new : Z).
 
 Definition Pr := Build_peer.
 Definition Pk := Build_pkt.
@@ -58,6 +63,12 @@ Definition check (c : case) : bool :=
   | CPool nb lb ops => run_ops (Z.to_nat nb) lb (new_pool (Z.to_nat nb)) ops
   | CNode nb lb self cbs evs => run_evs (Z.to_nat nb) lb (new_node (Z.to_nat nb) self cbs) evs
   | CRelay isRelay ttl dest relayed => Bool.eqb (relay_decision isRelay ttl dest) relayed
+  | CConcurrent nb lb n mn mx =>
+      match puts (Z.to_nat nb) lb (new_pool (Z.to_nat nb)) (repeat 7 (Z.to_nat n)) with
+      | Some (_, rs) =>
+          let w := Z.of_nat (length (filter (fun b => b) rs)) in (w =? mn) && (w =? mx)
+      | None => false
+      end
   end.
 
 Definition mismatches (l : list case) : list nat := failing check l.
